@@ -73,9 +73,10 @@ var (
 	testLineRE = regexp.MustCompile(`^TEST: (.*?)\s*\((PASS|FAIL)\)\s+\S+\s*$`)
 	addrRE     = regexp.MustCompile(`0x[0-9a-fA-F]{6,}`)
 
-	midLineTestRE = regexp.MustCompile(`([^\n])TEST: `)
-	uuidRE        = regexp.MustCompile(`[0-9a-fA-F]{8}-[0-9a-fA-F]{4}-[0-9a-fA-F]{4}-[0-9a-fA-F]{4}-[0-9a-fA-F]{12}`)
-	stepBudget    = int64(40_000_000) // logical instruction budget per run (hang guard, not a clock)
+	midLineTestRE  = regexp.MustCompile(`([^\n])TEST: `)
+	midLineErrorRE = regexp.MustCompile(`([^\n ])       Error: `)
+	uuidRE         = regexp.MustCompile(`[0-9a-fA-F]{8}-[0-9a-fA-F]{4}-[0-9a-fA-F]{4}-[0-9a-fA-F]{4}-[0-9a-fA-F]{12}`)
+	stepBudget     = int64(40_000_000) // logical instruction budget per run (hang guard, not a clock)
 )
 
 // relInit prepares the process: isolated HOME, library path, quiet logging, a
@@ -261,6 +262,7 @@ func RunCorpusFile(path string, cfg egorun.Config, d diag) (res FileResult) {
 		// that gets trimmed is the record's and the report line loses its own. Put the
 		// line break back in front of every report line.
 		raw = midLineTestRE.ReplaceAllString(raw, "$1\nTEST: ")
+		raw = midLineErrorRE.ReplaceAllString(raw, "$1\n       Error: ")
 	}
 
 	res.Raw, res.Tests, res.Trailing = parseTestOutput(raw)
@@ -313,7 +315,9 @@ func (r FileResult) vector(statusOnly bool) []string {
 
 	for _, t := range r.Tests {
 		if statusOnly {
-			out = append(out, t.Name+" => "+t.Status+" | "+t.ErrLine)
+			// (not even the error line: under tracing the record of the instruction that
+			// prints it quotes the error value, which may itself contain a line break)
+			out = append(out, t.Name+" => "+t.Status)
 		} else {
 			out = append(out, t.Name+" => "+t.Status+" | "+t.Detail)
 		}
